@@ -80,6 +80,8 @@ type End struct {
 	// thread can run, see csched.AddTimer) and sets rdExpired
 	rdTimer   *csched.Timer
 	rdExpired bool
+	wrTimer   *csched.Timer
+	wrExpired bool
 }
 
 // SetReadDeadline mirrors net.Conn.SetReadDeadline. The deadline is given in real time by the code under test
@@ -103,11 +105,34 @@ func (e *End) SetReadDeadline(t time.Time) error {
 	return nil
 }
 
-// SetWriteDeadline mirrors net.Conn.SetWriteDeadline (writes never block here).
-func (e *End) SetWriteDeadline(t time.Time) error { return nil }
+// SetWriteDeadline mirrors net.Conn.SetWriteDeadline. Writes never block here, but a Write issued after its deadline
+// has passed fails like net.Conn's does (seed C19-10: a write deadline that is set for a handshake and never cleared).
+func (e *End) SetWriteDeadline(t time.Time) error {
+	csched.SchedPoint("set-deadline", e.id, nil)
+	if e.wrTimer != nil {
+		e.wrTimer.Stop()
+		e.wrTimer = nil
+	}
+	e.wrExpired = false
+	if t.IsZero() {
+		return nil
+	}
+	d := time.Until(t)
+	if d <= 0 {
+		e.wrExpired = true
+		return nil
+	}
+	e.wrTimer = csched.AddTimer(int64(d), func() { e.wrExpired = true })
+	return nil
+}
 
 // SetDeadline mirrors net.Conn.SetDeadline.
-func (e *End) SetDeadline(t time.Time) error { return e.SetReadDeadline(t) }
+func (e *End) SetDeadline(t time.Time) error {
+	if err := e.SetReadDeadline(t); err != nil {
+		return err
+	}
+	return e.SetWriteDeadline(t)
+}
 
 var world struct {
 	listeners map[string]*listener
@@ -203,6 +228,9 @@ func (e *End) Write(p []byte) (int, error) {
 	}
 	if e.peer.closed {
 		return 0, errors.New("write: broken pipe")
+	}
+	if e.wrExpired {
+		return 0, ErrDeadline
 	}
 	q := p
 	if WriteHook != nil {
